@@ -1,4 +1,5 @@
 import SMV.Lemmas.Rtc
+import SMV.Lemmas.NoSends
 /-!
 # C02 — Callback groups run in the documented order with the documented view of state
 
@@ -278,5 +279,34 @@ theorem C02_initial (m : Machine) (t : Trigger) (s : StateId) (hs : initialTarge
     subst this
     exact ⟨fun cb hcb _ => ⟨⟨rfl, rfl, rfl, rfl, rfl, hcb⟩, fun r hr => ⟨rfl, rfl, hcb, hr⟩, fun _ => ⟨rfl, rfl, hcb⟩⟩,
       fun c => ⟨[.setState t.tid (stateVal m s')], rfl, by simp [InitEntry]⟩⟩
+
+/-! ## Both processing modes
+
+The theorems above are stated for the run-to-completion handler. For machines whose callbacks send no events
+(`NoSends`) the handler is never consulted, so they hold verbatim for every handler — in particular for the
+depth-first `sendNR m fuel` of `rtc=False`. (With nested sends under `rtc=False` the nested event's entries lie
+*inside* the sending callback, between its begin and its end: the phase order of one activation is then a
+statement about the entries of that trigger id only; the correspondence covers it.) -/
+
+theorem C02_phase_order_any {m : Machine} (hs : NoSends m) (h : Nested) (t : Trigger) (tr : Transn) :
+    RespPh 0 7 (activate h m t tr) := by
+  rw [activate_any hs h]; exact C02_phase_order m t tr
+
+theorem C02_entries_any {m : Machine} (hs : NoSends m) (h : Nested) (t : Trigger) (tr : Transn) :
+    Resp (LogAll (ActEntry m t tr)) (activate h m t tr) := by
+  rw [activate_any hs h]; exact C02_entries m t tr
+
+theorem C02_view_pre_any {m : Machine} (hs : NoSends m) (h : Nested) (t : Trigger) (tr : Transn) :
+    Resp View (activatePre h m t tr) := by
+  rw [activatePre_any hs h]; exact C02_view_pre m t tr
+
+theorem C02_view_post_any {m : Machine} (hs : NoSends m) (h : Nested) (t : Trigger) (tr : Transn) (c : Cfg) :
+    ∃ es, (activatePost h m t tr c).1.log = c.log ++ .setState t.tid (stateVal m tr.target) :: es ∧
+      ∀ e ∈ es, seenOk (some (stateVal m tr.target)) e := by
+  rw [activatePost_any hs h]; exact C02_view_post m t tr c
+
+theorem C02_initial_any {m : Machine} (hs : NoSends m) (h : Nested) (t : Trigger) (s : StateId)
+    (hi : initialTarget m = .ok s) : Resp (LogAll (InitEntry m t s)) (activateInitial h m t) := by
+  rw [activateInitial_any hs h]; exact C02_initial m t s hi
 
 end SMV
